@@ -26,6 +26,11 @@ func init() {
 }
 
 var c17Controls = []Control{
+	{Name: "lexer-caches-the-previous-rune", Rule: "R17e", WantKey: "regexpNext#store 1 of the position keeps prev in step", File: "pattern/pattern.go",
+		Mutate: ctlChain(ctlReplaceAnywhere("type stringLexer struct {\n\ts string\n\ti int\n}", "type stringLexer struct {\n\ts string\n\ti int\n\tprev rune\n}"),
+			ctlReplaceAnywhere("\tc, size := utf8.DecodeRuneInString(sl.s[sl.i:])\n\tsl.i += size\n\treturn c\n", "\tc, size := utf8.DecodeRuneInString(sl.s[sl.i:])\n\tsl.i += size\n\tsl.prev = c\n\treturn c\n"))},
+	{Name: "negated-group-trims-both-ends", Rule: "R17f", WantKey: "extNegatedMatcher#name begins with prefix and ends with suffix", File: "internal/pattern.go",
+		Mutate: ctlReplaceAnywhere("\t\tend := len(name) - len(suffix)\n\t\tif end < len(prefix) {\n\t\t\treturn false // prefix and suffix overlap in name\n\t\t}\n\t\tmiddle := name[len(prefix):end]\n", "\t\tmiddle := strings.TrimSuffix(strings.TrimPrefix(name, prefix), suffix)\n")},
 	{Name: "unclosed-extglob-writes-the-sentinel", Rule: "R17a", WantKey: "regexpNext#writes sl.next()", File: "pattern/pattern.go",
 		Mutate: ctlReplaceAnywhere("\t\t\tif sl.peekNext() != ')' {\n\t\t\t\t// Like Bash, an unmatched \"(\" makes the operator a literal;", "\t\t\tif false {\n\t\t\t\t// Like Bash, an unmatched \"(\" makes the operator a literal;")},
 	{Name: "escaped-rune-written-raw", Rule: "R17b", WantKey: "regexpNext#pattern text written: c", File: "pattern/pattern.go",
@@ -50,6 +55,12 @@ func runC17(p *Prog, r *Result) {
 	checkModeBitsConsulted(p, r, "R17c")
 	r.Rule("R17d", "a rune is narrowed to a byte, in Regexp's call tree, only where it is known to be below utf8.RuneSelf (0 instances on the pinned tree; armed by a control)", 0)
 	checkRuneNarrowing(p, r, "R17d")
+	r.Rule("R17e", "every field of the pattern lexer that next() keeps up to date besides the position is kept in step wherever else the position is stored (0 instances on the pinned tree, whose lexer has only the position; armed by a control)", 0)
+	if n := checkLexerFieldsMoveTogether(p, r, "R17e"); n == 0 {
+		r.Notef("R17e: stringLexer.next() stores only the position on this tree; the rule is armed by a control")
+	}
+	r.Rule("R17f", "a string tested for a variable prefix and a variable suffix has the three lengths compared: the two are matched by disjoint parts", 1)
+	checkPrefixSuffixDisjoint(p, r, "R17f")
 }
 
 func checkModeBitsConsulted(p *Prog, r *Result, rule string) {
